@@ -1174,6 +1174,12 @@ def arr_sum(a, ctx=None):
     cn = concrete_int(a.n)
     if cn is None:
         probe = a.f(z3.Int('sum!probe'))
+        if isinstance(probe, Opt) and a.comp is None and a.view is None:
+            # numpy: the sum of an array is NaN iff one of its elements is (A3: no infinities); the value part is the sum of the value parts
+            q = z3.Int(fresh_name('q'))
+            anynull = z3.Exists([q], z3.And(q >= 0, q < lift(a.n), to_bool(null_parts(a.f(q))[0])))
+            P = SUMS.prefix(lambda j, _f=a.f: _numify(null_parts(_f(j))[1]), ctx)
+            return mk_opt(anynull, P(lift(a.n)))
         if is_bool_like(probe) and not isinstance(probe, bool):
             # sum of a boolean array = number of True elements = size of the selection by that mask (A2)
             if a.comp is not None:
